@@ -169,6 +169,40 @@ theorem iter_mesh_same_grid_partial (isGammaCenter : Bool) :
 theorem init_mesh_gamma_counterexample : ¬ FullStatementSameGrid Rev.pinned := by
   unfold FullStatementSameGrid; decide
 
+/-! ### multi-segment band paths: every point is solved with its own segment's direction -/
+
+/-- **band_direction_history_free**: the directions used on a segment (and on everything after it) do not
+depend on the segments before it — in particular a first point shared with the previous segment is solved
+again, with the new segment's direction -/
+theorem band_direction_history_free (pre : List Seg) (s : Seg) (post : List Seg) (k : Nat) :
+    bandDirsAux k (pre ++ s :: post)
+      = bandDirsAux k pre ++ List.replicate s.npts (segDir (k + pre.length) s) :: bandDirsAux (k + pre.length + 1) post := by
+  induction pre generalizing k with
+  | nil => simp [bandDirsAux]
+  | cons a pre ih =>
+    simp only [List.cons_append, bandDirsAux, List.length_cons]
+    rw [ih (k + 1)]
+    have e1 : k + 1 + pre.length = k + (pre.length + 1) := by omega
+    rw [e1]
+
+/-- every point of segment `k` uses `segDir k`: its own direction when the segment passes through Γ, none otherwise -/
+theorem band_point_own_direction (segs : List Seg) (k j : Nat) (hk : k < segs.length) (hj : j < (segs[k]).npts) :
+    ((bandDirs segs).getD k []).getD j none = segDir k segs[k] := by
+  have hsplit : segs = segs.take k ++ segs[k] :: segs.drop (k + 1) := by
+    rw [List.getElem_cons_drop, List.take_append_drop]
+  have hlen : (segs.take k).length = k := by simp [List.length_take, Nat.min_eq_left (Nat.le_of_lt hk)]
+  have auxlen : ∀ (l : List Seg) (n : Nat), (bandDirsAux n l).length = l.length := by
+    intro l; induction l with
+    | nil => intro n; rfl
+    | cons a l ih => intro n; simp [bandDirsAux, ih]
+  unfold bandDirs
+  conv_lhs => rw [hsplit]
+  rw [band_direction_history_free, hlen]
+  have hl2 : (bandDirsAux 0 (segs.take k)).length = k := by rw [auxlen, hlen]
+  simp only [List.getD_eq_getElem?_getD]
+  rw [List.getElem?_append_right (by omega), hl2]
+  simp [hj]
+
 /-! ### band connection only re-orders -/
 
 theorem isPermB_sound {l : List Nat} {n : Nat} (h : isPermB l n = true) : l.Perm (List.range n) := by
@@ -256,6 +290,7 @@ example : runPath Rev.fixed Path.qpoints true ⟨true, true, true, false⟩ (fun
     = .ok (specPath Path.qpoints ⟨true, true, true, false⟩ (fun _ => []) [3, 5]) := by decide
 example : ¬ Excluded Rev.pinned Path.qpoints false ⟨true, true, true, true⟩ := by decide
 example : Excluded Rev.pinned Path.qpoints true ⟨true, false, true, false⟩ := by decide
+example : bandDirs [⟨true, 3⟩, ⟨true, 2⟩, ⟨false, 2⟩] = [[some 0, some 0, some 0], [some 1, some 1], [none, none]] := by decide
 /-- a concrete overlap matrix: the greedy matching answers the swap, which passes the certificate -/
 example : connOrder? [[1/10, 9/10], [9/10, 1/10]] = some [1, 0] := by decide +kernel
 example : isPermB [1, 0] 2 = true := by decide
@@ -283,6 +318,8 @@ end PhononModel.C14
 #print axioms PhononModel.C14.iter_mesh_same_grid
 #print axioms PhononModel.C14.iter_mesh_same_grid_partial
 #print axioms PhononModel.C14.init_mesh_gamma_counterexample
+#print axioms PhononModel.C14.band_direction_history_free
+#print axioms PhononModel.C14.band_point_own_direction
 #print axioms PhononModel.C14.isPermB_sound
 #print axioms PhononModel.C14.band_connection_perm
 #print axioms PhononModel.C14.bandOrder_perm
